@@ -83,9 +83,29 @@ Definition eig_ok (tol : float) (f : opd float) (e : nat * fmat * fvec) : bool :
         && close tol sc (sumn_ ArFloat (fun l => get ArFloat Q i l * (vget ArFloat w l * get ArFloat Q j l)) n) (get ArFloat K i j))
       (iota 0%N n)) (iota 0%N n).
 
+(* the same against an explicit matrix *)
+Definition eig_ok_mat (tol : float) (n0 : nat) (K : fmat) (e : nat * fmat * fvec) : bool :=
+  let: (n, Q, w) := e in
+  let sc := fmax 1 (cmaxabs K) in
+  (n == n0) &&
+  all (fun i => all (fun j =>
+        close tol 1 (sumn_ ArFloat (fun l => get ArFloat Q l i * get ArFloat Q l j) n) (if i == j then 1 else 0)
+        && close tol sc (sumn_ ArFloat (fun l => get ArFloat Q i l * (vget ArFloat w l * get ArFloat Q j l)) n) (get ArFloat K i j))
+      (iota 0%N n)) (iota 0%N n).
+
+Fixpoint all3 {X Y Z} (p : X -> Y -> Z -> bool) (a : seq X) (b : seq Y) (c : seq Z) : bool :=
+  match a, b, c with
+  | [::], [::], [::] => true
+  | x :: a', y :: b', z :: c' => p x y z && all3 p a' b' c'
+  | _, _, _ => false
+  end.
+
 Definition oracle_ok (tol : float) (o : opd float) : bool :=
   match o with
   | DKronAddedDiag fs DConst _ eig => all2 (eig_ok tol) fs eig
+  | DKronAddedKronDiag true fs _ eig => all2 (eig_ok tol) fs eig
+  | DKronAddedKronDiag false fs ds eig =>
+      all3 (fun f dv e => eig_ok_mat tol (osize f) (sym_scaled ArFloat (osize f) (dense_of ArFloat f) dv) e) fs ds eig
   | _ => true
   end.
 
